@@ -138,6 +138,12 @@ def configs(tier):
                     triples.append((w, list(tr)))
     for w, tr in triples:
         out.append((base_case(w, tr), 1))
+    # create || (get of the new id, then expire of what the get returned)
+    for w in ('fresh', 'strong'):
+        b = base_case(w, ['create', 'getnew'])
+        b['progs'][2].append(['expire', [2, 0]])
+        b['ops'] = ['create', 'getnew+expire']
+        out.append((b, 2))
     return out
 
 
@@ -198,6 +204,16 @@ def corpus():
     c.append({'rows': [1], 'cfg': dict(CFG), 'world': 'strong', 'ops': ['stale-expire'],
               'progs': [[['get', 1]], [['expire', [0, 0]], ['get', 1], ['expire', [0, 0]]]],
               'sched': {'first': 1, 'pre': []}, 'tag': 'expire_of_expired_instance_purges_current'})
+    # a get that hits the instance between cache.created() and _init, then expires it (found with VERIF_SEED=41)
+    c.append({'rows': [1, 2], 'cfg': dict(CFG), 'world': 'fresh', 'ops': ['uninit-expire'],
+              'progs': [[], [['get', 3], ['expire', [1, 0]]], [['create']]],
+              'sched': {'kind': 'list', 'list': [1] * 7 + [2] * 11 + [1, 2] + [1] * 8 + [2] + [1]},
+              'tag': 'created_publishes_uninitialised_instance'})
+    # fixed by 2cc82cd: cache=False, created() wrote the weak dict unlocked while getAll() iterated (found with VERIF_SEED=44)
+    c.append({'rows': [1, 2, 3], 'cfg': {'cache': 0, 'freq': 100, 'frac': 2}, 'world': 'weakdead', 'ops': ['nocache-create'],
+              'progs': [[['get', 1], ['get', 2], ['xall'], ['drop', [0, 0]]], [['mexall']], [['create']]],
+              'sched': {'kind': 'list', 'list': [1] * 9 + [2] * 6 + [1] * 8 + [2] * 2 + [1] * 3},
+              'tag': 'created_unlocked_without_caching'})
     # the seeded defect "no re-check under the lock" needs exactly this shape
     c.append(dict(base_case('fresh', ['get1', 'get1']), sched={'first': 1, 'pre': [[0, 9, 2]], 'prio': [1, 2]}, tag='double_checked_lookup'))
     return c
@@ -439,13 +455,54 @@ def _create_and_get_of_row(c, o, row):
     return creates, gets
 
 
+def _uninit_use(c, o, f):
+    """expire() ran on an instance whose constructor had not returned yet in another thread (cache.created() registers
+    the instance before _SO_finishCreate calls _init): `self.id` is missing (AttributeError) and _init replaces
+    `_SO_writeLock` under the feet of the thread that holds it (RuntimeError: release unlocked lock; the old lock
+    stays held: a later waiter on it blocks forever)."""
+    un = o.get('uninit_uses') or []
+    if not un:
+        return False
+    k = f.get('kind')
+    if k == 'exception' and f.get('exc') in ('RuntimeError', 'AttributeError') and f.get('thread') in un:
+        op = c['progs'][f['thread']][f['op']]
+        return op[0] in ('expire', 'mexall')
+    return k in ('wlock', 'deadlock')
+
+
+def _load_before_reread(c, o, row, creates, gets):
+    """On the unchanged tree the creator publishes its instance (created) right after the INSERT and re-reads the row
+    only afterwards: a get that registers a second instance has done its load (SELECT of the row) BEFORE the creator's
+    re-read.  A load that comes after the creator's re-read and still misses means the instance was published too late."""
+    sql = o.get('sql')
+    if sql is None:
+        return True
+    judged = False
+    for tc, _ in creates:
+        ins = [n for n, (t, k, i, _) in enumerate(sql) if t == tc and k == 'INSERT']
+        if not ins:
+            continue
+        reread = [n for n, (t, k, i, _) in enumerate(sql) if t == tc and k == 'SELECT' and i == row and n > ins[-1]]
+        if not reread:
+            continue
+        for tg, _ in gets:
+            loads = [n for n, (t, k, i, _) in enumerate(sql) if t == tg and k == 'SELECT' and i == row and n > ins[-1]]
+            if loads:
+                judged = True
+                if loads[0] < reread[0]:
+                    return True          # a get loaded the row before the creator's re-read: the known race
+    return not judged
+
+
 def classify_by_shape(c, o, f):
     """The labels of the model are not available (the skeleton of the tree under test differs, or a cache=False
     run): recognise the open finding by the operations involved only, so that the replay shows something else
     than the known race."""
+    if _uninit_use(c, o, f):
+        return 'created_publishes_uninitialised_instance'
     if f.get('kind') in ('identity', 'unreachable'):
         creates, gets = _create_and_get_of_row(c, o, f.get('row'))
-        if creates and gets:
+        if creates and gets and _load_before_reread(c, o, f.get('row'), creates, gets):
             return 'created_overwrites_get_miss'
     return None
 
@@ -458,10 +515,12 @@ def classify(c, o, f):
     are not classified: they would be violations."""
     if not isinstance(o, dict) or 'trace' not in o:
         return None
-    if f.get('kind') not in ('identity', 'unreachable'):
-        return None
     if o.get('skeleton') or not c.get('cfg', {}).get('cache', 1):
         return classify_by_shape(c, o, f)
+    if _uninit_use(c, o, f):
+        return 'created_publishes_uninitialised_instance'
+    if f.get('kind') not in ('identity', 'unreachable'):
+        return None
     creates, gets = _create_and_get_of_row(c, o, f.get('row'))
     if not creates or not gets:
         return None
@@ -474,7 +533,7 @@ def classify(c, o, f):
             pending.discard(t)
         elif before == 'P153' and pending - {t}:
             racing.add(t)
-    if any(t in racing for t, _ in gets):
+    if any(t in racing for t, _ in gets) and _load_before_reread(c, o, f.get('row'), creates, gets):
         return 'created_overwrites_get_miss'
     return None
 
